@@ -47,7 +47,7 @@ def required_cells(tier):
             "class:E", "class:R", "resolved-set-compared", "table-compared", "header-dir-outside-root",
             "outside-header-read", "include-depth>=40", "include-depth>=70", "headers-differing-in-case",
             "guard-undefined-then-reincluded", "directory-named-like-header-on-search-path", "include-spelled-with-dotdot",
-            "dotdot-include-resolved-through-search-directory", "include-spelled-with-dotdot-after-directory-link", "directory-named-by-I-and-isystem", "forced-include-without-recognised-extension", "quote-include-inside-header-opened-through-file-link", "directory-named-twice-by-I", "environment:CPATH-names-header-directories",
+            "dotdot-include-resolved-through-search-directory", "include-spelled-with-dotdot-after-directory-link", "directory-named-by-I-and-isystem", "translation-unit-outside-root-includes-member-headers", "same-named-file-in-root-off-every-search-path", "forced-include-without-recognised-extension", "quote-include-inside-header-opened-through-file-link", "directory-named-twice-by-I", "environment:CPATH-names-header-directories",
             "headers-with-unknown-or-no-extension", "header-names-outside-ascii"]
 
 
@@ -152,7 +152,16 @@ def check_case(ctx, case, base, cls, extra_cells=()):
     shutil.rmtree(base, ignore_errors=True)
     root, rendered = forest.materialize(case, base)
     root_real = os.path.realpath(root)
-    ok, per_tu, expected = forest.gcc_expect(case, base, rendered)
+    gcc_extra = []
+    if case.get("builtin_headers"):
+        # a stand-in for the compiler's own built-in header directory: searched by gcc (last), named on no command line
+        bdir = os.path.join(os.path.realpath(base), "compiler-builtin")
+        os.makedirs(bdir, exist_ok=True)
+        for nm in case["builtin_headers"]:
+            with open(os.path.join(bdir, nm), "w") as f:
+                f.write("#define BUILTIN_%s 1\n" % nm.split(".")[0].upper())
+        gcc_extra = ["-idirafter", bdir]
+    ok, per_tu, expected = forest.gcc_expect(case, base, rendered, extra=gcc_extra)
     if not ok:
         acc.excluded("gcc-diagnostic", cls=cls)
         return "excluded"
@@ -196,6 +205,10 @@ def check_case(ctx, case, base, cls, extra_cells=()):
             tu, g = case["tus"][ti], per_tu[ti]
             gset = {os.path.realpath(os.path.join(os.path.dirname(forest.abspath(*forest.paths(base), tu["file"])), p))
                     for _, p in g["includes"]}
+            # headers the compiler took from its own built-in directories are not part of the case
+            gset = {p for p in gset if p.startswith(os.path.realpath(base) + os.sep) and not p.startswith(os.path.join(os.path.realpath(base), "compiler-builtin") + os.sep)}
+            if any(os.path.basename(p) == "iso646.h" for _, p in g["includes"]) and "iso646.h" in case["files"]:
+                cells.add("same-named-file-in-root-off-every-search-path")
             for sp in tu["includes"]:
                 # gcc -H does not list files given with -include; the generator only forces inc/pre.h and inc/forced.def
                 gset.add(os.path.realpath(forest.abspath(*forest.paths(base), "inc/forced.def" if sp.endswith("forced.def") else "inc/pre.h")))
@@ -235,6 +248,8 @@ def check_case(ctx, case, base, cls, extra_cells=()):
                         problems.append({"kind": "final-macro-table", "tu": tu["file"], "gcc_only": sorted(gt - ct), "cbi_only": sorted(ct - gt)})
                     if tu["includes"] and "FROM_PRE" in gt:
                         cells.add("forced-include-macro-tested")
+    if any(tu["file"].startswith("@out/") for tu in case["tus"]):
+        cells.add("translation-unit-outside-root-includes-member-headers")
     if any(r.startswith("@out/") for r in case["files"]):
         cells.add("header-dir-outside-root")
     if any(r.endswith("/CaseP.h") for r in case["files"]):
@@ -347,7 +362,7 @@ def run_shard(ctx):
         # one case in 16: an include chain 20..100 levels deep (gcc allows 200; the code's recursion meets the interpreter's limit near 120)
         case = forest.gen(rng, outside=rng.random() < 0.4, deep=[20, 40, 70, 100][(i // 16) % 4] if i % 16 == 5 else 0,
                           casepair=(i % 8 == 3), reguard=(i % 8 == 6), dirdecoy=(i % 4 == 1), updir=(i % 4 == 2),
-                          findable=(i % 4 != 0), oddnames=(i % 8 == 7), dirlinks=(i % 8 == 4), dupdirs=(i % 8 in (0, 5)), links=("side" if i % 8 == 2 else False))      # (3 in 4: every header name is on every command's path; else ~60% are rejected by gcc)
+                          findable=(i % 4 != 0), oddnames=(i % 8 == 7), dirlinks=(i % 8 == 4), dupdirs=(i % 8 in (0, 5)), links=("side" if i % 8 == 2 else False), builtin_decoy=(i % 8 == 1), outside_tu=(i % 8 == 3))      # (3 in 4: every header name is on every command's path; else ~60% are rejected by gcc)
         if ctx.mine(i):
             check_case(ctx, case, base, "R")
     shutil.rmtree(base, ignore_errors=True)
